@@ -218,6 +218,11 @@ type PathQuery struct {
 
 // Exists answers the query; when a path exists it returns the blocks visited in
 // order of discovery up to the target (a witness region, not a minimal path).
+//
+// The walk is sensitive to boolean flag variables: a φ-node whose incoming value
+// on the traversed edge is a boolean constant (or another tracked flag) has a
+// known value, and a branch on such a φ is followed only in the consistent
+// direction (`sent := false; for … { …; sent = true }; if sent { … }`).
 func (q PathQuery) Exists() (bool, []*ssa.BasicBlock) {
 	fn := q.Fn
 	if fn == nil || len(fn.Blocks) == 0 {
@@ -242,7 +247,6 @@ func (q PathQuery) Exists() (bool, []*ssa.BasicBlock) {
 		}
 		return false
 	}
-	// scan a block from index start; returns (hitTarget, blocked)
 	scan := func(b *ssa.BasicBlock, start int) (bool, bool) {
 		for i := start; i < len(b.Instrs); i++ {
 			ins := b.Instrs[i]
@@ -255,6 +259,99 @@ func (q PathQuery) Exists() (bool, []*ssa.BasicBlock) {
 		}
 		return false, false
 	}
+	// flag phis: boolean φ with at least one constant edge
+	var flags []*ssa.Phi
+	for _, b := range fn.Blocks {
+		for _, ins := range b.Instrs {
+			ph, ok := ins.(*ssa.Phi)
+			if !ok {
+				break
+			}
+			if bt, ok := ph.Type().Underlying().(*types.Basic); !ok || bt.Kind() != types.Bool {
+				continue
+			}
+			for _, e := range ph.Edges {
+				if _, isC := ConstBool(e); isC {
+					flags = append(flags, ph)
+					break
+				}
+			}
+		}
+	}
+	flagIdx := map[*ssa.Phi]int{}
+	for i, f := range flags {
+		flagIdx[f] = i
+	}
+	type state struct {
+		b   *ssa.BasicBlock
+		key string
+	}
+	// flag valuation: byte per flag: 'u' unknown, 't', 'f'
+	initVal := make([]byte, len(flags))
+	for i := range initVal {
+		initVal[i] = 'u'
+	}
+	transfer := func(val []byte, from, to *ssa.BasicBlock) []byte {
+		if len(flags) == 0 {
+			return val
+		}
+		out := append([]byte(nil), val...)
+		pi := -1
+		for i, p := range to.Preds {
+			if p == from {
+				pi = i
+			}
+		}
+		for _, ins := range to.Instrs {
+			ph, ok := ins.(*ssa.Phi)
+			if !ok {
+				break
+			}
+			k, tracked := flagIdx[ph]
+			if !tracked || pi < 0 {
+				continue
+			}
+			e := ph.Edges[pi]
+			if c, isC := ConstBool(e); isC {
+				if c {
+					out[k] = 't'
+				} else {
+					out[k] = 'f'
+				}
+			} else if ep, ok := e.(*ssa.Phi); ok {
+				if k2, ok := flagIdx[ep]; ok {
+					out[k] = val[k2]
+				} else {
+					out[k] = 'u'
+				}
+			} else {
+				out[k] = 'u'
+			}
+		}
+		return out
+	}
+	succs := func(b *ssa.BasicBlock, val []byte) []*ssa.BasicBlock {
+		if iff := IfOf(b); iff != nil && len(flags) > 0 {
+			cond := iff.Cond
+			neg := false
+			if u, ok := cond.(*ssa.UnOp); ok && u.Op == token.NOT {
+				cond, neg = u.X, true
+			}
+			if ph, ok := cond.(*ssa.Phi); ok {
+				if k, ok := flagIdx[ph]; ok && val[k] != 'u' {
+					t := val[k] == 't'
+					if neg {
+						t = !t
+					}
+					if t {
+						return b.Succs[:1]
+					}
+					return b.Succs[1:2]
+				}
+			}
+		}
+		return b.Succs
+	}
 	var startBlock *ssa.BasicBlock
 	startIdx := 0
 	if q.From != nil {
@@ -264,38 +361,43 @@ func (q PathQuery) Exists() (bool, []*ssa.BasicBlock) {
 		startBlock = fn.Blocks[0]
 	}
 	var trail []*ssa.BasicBlock
-	seen := map[*ssa.BasicBlock]bool{}
-	var work []*ssa.BasicBlock
-	// first (partial) block
+	seen := map[state]bool{}
+	type item struct {
+		b   *ssa.BasicBlock
+		val []byte
+	}
+	var work []item
 	hit, blocked := scan(startBlock, startIdx)
 	trail = append(trail, startBlock)
 	if hit {
 		return true, trail
 	}
-	push := func(from *ssa.BasicBlock) {
-		for _, s := range from.Succs {
+	push := func(from *ssa.BasicBlock, val []byte) {
+		for _, s := range succs(from, val) {
 			if q.CutEdges[Edge{from, s}] {
 				continue
 			}
-			if !seen[s] {
-				seen[s] = true
-				work = append(work, s)
+			nv := transfer(val, from, s)
+			st := state{s, string(nv)}
+			if !seen[st] {
+				seen[st] = true
+				work = append(work, item{s, nv})
 			}
 		}
 	}
 	if !blocked {
-		push(startBlock)
+		push(startBlock, initVal)
 	}
 	for len(work) > 0 {
-		b := work[0]
+		it := work[0]
 		work = work[1:]
-		trail = append(trail, b)
-		hit, blocked := scan(b, 0)
+		trail = append(trail, it.b)
+		hit, blocked := scan(it.b, 0)
 		if hit {
 			return true, trail
 		}
 		if !blocked {
-			push(b)
+			push(it.b, it.val)
 		}
 	}
 	return false, nil
